@@ -19,6 +19,8 @@ func checkC12(c *Ctx) {
 	r121(c, "R12.1 atomic-replace-protocol")
 	r122(c, "R12.2 snapshots-serialised-and-unconditional")
 	r123(c, "R12.3 every-mutating-command-snapshots-after")
+	// the lock that serialises snapshots is the router's own, not a per-call copy (shared with C18)
+	rNoLockCopies(c, "R12.4 no-lock-copies")
 }
 
 // derivesFromField: v is computed from a load of field f (through string ops / calls taking it as argument).
